@@ -168,13 +168,22 @@ def covers_refinable(case, i) -> bool:
     return False
 
 
+def add_fixed(mods, regs, rng):
+    """the 'F' regions of the description are the rectangles of fixed modules: one module each, or (half of the cases with
+    two or more of them) ONE fixed module made of all of them -- its rectangles are disjoint, as a valid die requires"""
+    fr = [t[:4] for t in regs if t[4] == "F"]
+    if len(fr) >= 2 and rng.random() < 0.5:
+        mods.append(["fixed", fr])
+    else:
+        for r in fr:
+            mods.append(["fixed", [r]])
+
+
 def to_case(g, rng, embs=ORIGIN0):
     """TLC case -> harness case; every 'F' region becomes its own fixed module appended to the module list"""
     mods = [[m[0], [list(r) for r in m[1]]] for m in g["mods"]]
     regs = [list(t) for t in g["regs"]]
-    for t in regs:
-        if t[4] == "F":
-            mods.append(["fixed", [t[:4]]])
+    add_fixed(mods, regs, rng)
     case = {"dw": g["dw"], "dh": g["dh"], "regs": regs, "mods": mods, "zero": g["zero"], "embs": list(embs)}
     if rng.random() < 0.35:
         case["pre"] = ["split", *rng.choice([(3, 2), (2, 1), (71, 50)]), rng.randint(2, 9)]
@@ -232,9 +241,7 @@ def random_case(rng: random.Random):
             h2 = 8 * rng.randint(1, 12)
             rects.append([x1 + w, y1, x1 + w + 8 * rng.randint(1, 8), y1 + h2])
         mods.append([kind, rects])
-    for t in regs:
-        if t[4] == "F":
-            mods.append(["fixed", [t[:4]]])
+    add_fixed(mods, regs, rng)
     case = {"dw": W, "dh": H, "regs": regs, "mods": mods, "zero": rng.randint(0, 1), "embs": list(ORIGIN0)}
     hard = [i for i, m in enumerate(mods) if m[0] == "hard"]
     if hard and rng.random() < 0.5:
